@@ -424,12 +424,11 @@ int lha_ext_header_decode(LHAFileHeader *header,
 
 	htype = ext_header_for_num(num);
 
-	if (htype == NULL) {
-		return 0;
-	}
+	// Unknown header types and headers that are too short to be
+	// valid are ignored; this is not a failure.
 
-	if (data_len < htype->min_len) {
-		return 0;
+	if (htype == NULL || data_len < htype->min_len) {
+		return 1;
 	}
 
 	return htype->decoder(header, data, data_len);
